@@ -99,6 +99,46 @@ func nilGuarded(fn *ssa.Function, use ssa.Instruction, v ssa.Value, path string)
 	return false
 }
 
+// guardedAtCallers: fn is only called from library code, and every call site is
+// dominated by a non-nil check of a load of the same field (the caller checked
+// before handing the value, or the object that holds it, down).
+func (c *Ctx) guardedAtCallers(fn *ssa.Function, f *types.Var, depth int) bool {
+	if depth > 3 {
+		return false
+	}
+	node := c.P.CallGraph().Nodes[fn]
+	if node == nil || len(node.In) == 0 {
+		return false
+	}
+	if fn.Object() != nil && fn.Object().Exported() {
+		return false // callable from outside with an unchecked value
+	}
+	for _, in := range node.In {
+		caller := in.Caller.Func
+		if in.Site == nil || !c.P.InLib(caller) {
+			return false
+		}
+		ok := false
+		for _, ce := range ir.DominatingConds(caller, in.Site.Block()) {
+			x, nilWhenTrue, isNC := ir.NilCheck(ce.If.Cond)
+			if !isNC {
+				continue
+			}
+			succTrue := caller.Blocks[ce.Edge.From].Succs[0].Index == ce.Edge.To
+			if succTrue == nilWhenTrue {
+				continue // nil on this edge
+			}
+			if ld, isLd := x.(*ssa.UnOp); isLd && ir.FieldOf(ld.X) == f {
+				ok = true
+			}
+		}
+		if !ok && !c.guardedAtCallers(caller, f, depth+1) {
+			return false
+		}
+	}
+	return true
+}
+
 func (c *Ctx) RuleN(rule string, in func(*ssa.Function) bool) int {
 	opt := c.optionalFuncs()
 	optFields := map[*types.Var]string{}
@@ -110,43 +150,96 @@ func (c *Ctx) RuleN(rule string, in func(*ssa.Function) bool) int {
 		from string
 	}
 	var sites []site
-	for _, fn := range c.P.LibFunctions() {
-		fn := fn
-		instrsOf(fn, func(i ssa.Instruction) {
-			call, ok := i.(*ssa.Call)
-			if !ok {
-				return
-			}
-			idx := -1
-			from := ""
-			if callee := ir.Callee(call); callee != nil {
-				if k, ok := opt[callee]; ok {
-					idx, from = k, name(callee)
-				}
-			}
-			if k, ok := optionalLibResults[ir.CallID(call)]; ok {
-				idx, from = k, ir.CallID(call)
-			}
-			if idx < 0 {
-				return
-			}
-			// the result value
-			for _, r := range *call.Referrers() {
-				if ex, ok := r.(*ssa.Extract); ok && ex.Index == idx {
-					sites = append(sites, site{fn, ex, from})
-				}
-			}
-		})
+	seenSite := map[ssa.Value]bool{}
+	addSite := func(fn *ssa.Function, v ssa.Value, from string) bool {
+		if seenSite[v] {
+			return false
+		}
+		seenSite[v] = true
+		sites = append(sites, site{fn, v, from})
+		return true
 	}
-	// direct uses, and stores into fields
-	for _, s := range sites {
-		for _, r := range *s.v.Referrers() {
-			if st, ok := r.(*ssa.Store); ok && st.Val == s.v {
-				if f := ir.FieldOf(st.Addr); f != nil {
-					optFields[f] = s.from
+	optFuncResult := map[*ssa.Function]string{} // single-pointer-result helpers that hand an optional value on
+	collect := func() bool {
+		changed := false
+		for _, fn := range c.P.LibFunctions() {
+			fn := fn
+			instrsOf(fn, func(i ssa.Instruction) {
+				switch x := i.(type) {
+				case *ssa.Call:
+					idx := -1
+					from := ""
+					if callee := ir.Callee(x); callee != nil {
+						if k, ok := opt[callee]; ok {
+							idx, from = k, name(callee)
+						}
+						if fr, ok := optFuncResult[callee]; ok {
+							if addSite(fn, x, fr) {
+								changed = true
+							}
+						}
+					}
+					if k, ok := optionalLibResults[ir.CallID(x)]; ok {
+						idx, from = k, ir.CallID(x)
+					}
+					if idx < 0 {
+						return
+					}
+					for _, r := range *x.Referrers() {
+						if ex, ok := r.(*ssa.Extract); ok && ex.Index == idx {
+							if addSite(fn, ex, from) {
+								changed = true
+							}
+						}
+					}
+				case *ssa.UnOp:
+					// a load of an optional field is an optional value too
+					if f := ir.FieldOf(x.X); f != nil {
+						if from, isOpt := optFields[f]; isOpt {
+							// copies into other fields / returns propagate below; derefs are judged in the field pass
+							for _, r := range *x.Referrers() {
+								switch y := r.(type) {
+								case *ssa.Store:
+									if y.Val == ssa.Value(x) {
+										if g := ir.FieldOf(y.Addr); g != nil && g != f {
+											if _, known := optFields[g]; !known {
+												optFields[g] = from
+												changed = true
+											}
+										}
+									}
+								case *ssa.Return:
+									if fn.Signature.Results().Len() == 1 && !nilGuarded(fn, y, x, ir.AccessPath(x)) {
+										if _, known := optFuncResult[fn]; !known {
+											optFuncResult[fn] = from
+											changed = true
+										}
+									}
+								}
+							}
+						}
+					}
+				}
+			})
+		}
+		for _, s := range sites {
+			for _, r := range *s.v.Referrers() {
+				if st, ok := r.(*ssa.Store); ok && st.Val == s.v {
+					if f := ir.FieldOf(st.Addr); f != nil {
+						if _, known := optFields[f]; !known {
+							optFields[f] = s.from
+							changed = true
+						}
+					}
 				}
 			}
 		}
+		return changed
+	}
+	for iter := 0; iter < 6 && collect(); iter++ {
+	}
+	// direct uses
+	for _, s := range sites {
 		if in != nil && !in(s.fn) {
 			continue
 		}
@@ -182,7 +275,7 @@ func (c *Ctx) RuleN(rule string, in func(*ssa.Function) bool) int {
 			for _, u := range derefUses(ld) {
 				n++
 				key := ordinalKey(counts, name(fn)+":deref."+f.Name())
-				ok := nilGuarded(fn, u, ld, path)
+				ok := nilGuarded(fn, u, ld, path) || c.guardedAtCallers(fn, f, 0)
 				c.R.Check(ok, rule, name(fn), strings.TrimPrefix(key, name(fn)+":"), c.IPos(u),
 					"field "+f.Name()+" holds the optional result of "+shortID(from)+" and must be nil-checked before it is dereferenced",
 					"dereference of "+path+" is not dominated by a non-nil check")
